@@ -137,7 +137,7 @@ def at_limit_specs(ctx):
             specs.append((b"{" + b"y" * (n - 1), nat))
     heavy = [b'"' * 55000, b"\\" * 52000, b"\x01" * 50000, b'\\"' * 29000, b"\n\t" * 27000]
     alphabet = [b'"', b"\\", b"\n", b"\r", b"\t", b"\x01", b"\x1f", b"<", b">", b"&", b"\x08", b"\x0c"]
-    for dens in [0.3, 0.45, 0.6, 0.75, 0.9] * (1 if ctx.tier == "quick" else 6):
+    for dens in [0.1, 0.2, 0.3, 0.45, 0.6, 0.75, 0.9] * (1 if ctx.tier == "quick" else 6):
         n = rng.randrange(50000, 60001)
         heavy.append(b"".join(rng.choice(alphabet) if rng.random() < dens else b"a" for _ in range(n)))
     for h in heavy:
